@@ -406,4 +406,205 @@ theorem val_eq_spec (S : Solver α) (env : String → α) (m : M α) (x : α) :
 
 end routing
 
+
+/-! ### which root the code selects -/
+
+theorem depressedRoot_real (p q : ℝ) (k : ℕ) :
+    depressedRoot p q k = if 0 ≤ disc p q then cardano q (disc p q) else trigRoot p q k := by
+  simp only [depressedRoot, selGe0_real]
+
+/-- the cubic `F (F - m)² = k` (`k > 0`) of the Odijk inversion: the root the code selects (index 2)
+    is positive and at least `m` -/
+theorem odijk_shape_root (m k : ℝ) (hk : 0 < k) :
+    0 < calcCubicRoot (-2 * m) (m ^ 2) (-k) 2 ∧ m ≤ calcCubicRoot (-2 * m) (m ^ 2) (-k) 2 := by
+  have hroot := calcCubicRoot_is_root (-2 * m) (m ^ 2) (-k) 2
+  have hdef := calcCubicRoot_real (-2 * m) (m ^ 2) (-k) 2
+  set F := calcCubicRoot (-2 * m) (m ^ 2) (-k) 2 with hFdef
+  have hF : F * (F - m) ^ 2 = k := by linear_combination hroot
+  have hFpos : 0 < F := by
+    by_contra h
+    have h' : F ≤ 0 := not_lt.mp h
+    nlinarith [sq_nonneg (F - m)]
+  refine ⟨hFpos, ?_⟩
+  by_cases hm0 : m ≤ 0
+  · linarith
+  have hm : 0 < m := not_le.mp hm0
+  have hp : depP (-2 * m) (m ^ 2) = -(m ^ 2 / 3) := by rw [depP_real]; ring
+  have hq : depQ (-2 * m) (m ^ 2) (-k) = 2 * m ^ 3 / 27 - k := by rw [depQ_real]; ring
+  rw [hp, hq, depressedRoot_real] at hdef
+  have hdisc : disc (-(m ^ 2 / 3)) (2 * m ^ 3 / 27 - k) = k * (k / 4 - m ^ 3 / 27) := by
+    rw [disc_real]; ring
+  by_cases hdet : 0 ≤ disc (-(m ^ 2 / 3)) (2 * m ^ 3 / 27 - k)
+  · -- Cardano branch
+    rw [if_pos hdet] at hdef
+    by_contra hlt
+    have hlt' : F < m := not_le.mp hlt
+    have hkge : m ^ 3 / 27 ≤ k / 4 := by
+      rw [hdisc] at hdet
+      by_contra hc
+      have : k / 4 - m ^ 3 / 27 < 0 := by linarith [not_le.mp hc]
+      nlinarith
+    have hid : (F - m / 3) ^ 2 * (4 * m / 3 - F) = 4 * m ^ 3 / 27 - k := by
+      linear_combination -hF
+    have hpos : 0 < 4 * m / 3 - F := by linarith
+    have hsq : (F - m / 3) ^ 2 ≤ 0 := by
+      by_contra hc
+      have : 0 < (F - m / 3) ^ 2 := not_le.mp hc
+      nlinarith
+    have hFeq : F = m / 3 := by
+      have : (F - m / 3) ^ 2 = 0 := le_antisymm hsq (sq_nonneg _)
+      have := pow_eq_zero_iff (n := 2) (by norm_num) |>.mp this
+      linarith
+    have hkeq : k = 4 * m ^ 3 / 27 := by rw [← hF, hFeq]; ring
+    have hd0 : disc (-(m ^ 2 / 3)) (2 * m ^ 3 / 27 - k) = 0 := by rw [hdisc, hkeq]; ring
+    rw [hd0, cardano_real, Real.sqrt_zero, hkeq] at hdef
+    have hc : Real.cbrt (-(2 * m ^ 3 / 27 - 4 * m ^ 3 / 27) / 2 + 0) = m / 3 := by
+      apply cube_inj
+      rw [cbrt_pow3]; ring
+    have hc' : Real.cbrt (-(2 * m ^ 3 / 27 - 4 * m ^ 3 / 27) / 2 - 0) = m / 3 := by
+      apply cube_inj
+      rw [cbrt_pow3]; ring
+    rw [hc, hc'] at hdef
+    linarith
+  · -- trigonometric branch
+    rw [if_neg hdet, trigRoot_real] at hdef
+    simp only at hdef
+    set A := Real.arcsin (asinArg (-(m ^ 2 / 3)) (2 * m ^ 3 / 27 - k)) with hA
+    have hA1 : -(Real.pi / 2) ≤ A := Real.neg_pi_div_two_le_arcsin _
+    have hA2 : A ≤ Real.pi / 2 := Real.arcsin_le_pi_div_two _
+    have hcos : 1 / 2 ≤ Real.cos (1 / 3 * A + Real.pi / 6) := by
+      rw [← Real.cos_pi_div_three]
+      apply Real.cos_le_cos_of_nonneg_of_le_pi
+      · linarith
+      · linarith [Real.pi_pos]
+      · linarith
+    set s := √(-(-(m ^ 2 / 3))) with hs
+    have hs0 : 0 ≤ s := Real.sqrt_nonneg _
+    have hs2 : s ^ 2 = m ^ 2 / 3 := by
+      rw [hs, Real.sq_sqrt (by have : 0 ≤ m ^ 2 / 3 := by positivity
+                               linarith)]; ring
+    have h3sq : (√3 : ℝ) ^ 2 = 3 := Real.sq_sqrt (by norm_num)
+    have h3pos : (0 : ℝ) < √3 := Real.sqrt_pos.mpr (by norm_num)
+    -- s / √3 = m / 3
+    have hsm : s = m / 3 * √3 := by
+      have h1 : (s - m / 3 * √3) * (s + m / 3 * √3) = 0 := by
+        have : (m / 3 * √3) ^ 2 = m ^ 2 / 3 := by rw [mul_pow, h3sq]; ring
+        linear_combination hs2 - this
+      rcases mul_eq_zero.mp h1 with h | h
+      · linarith
+      · have : 0 < m / 3 * √3 := by positivity
+        linarith
+    rw [two_div_sqrt3, hsm] at hdef
+    have : F = 2 * m / 3 * Real.cos (1 / 3 * A + Real.pi / 6) + 2 * m / 3 := by
+      rw [hdef]
+      have : 2 * √3 / 3 * (m / 3 * √3) = 2 * m / 3 * (√3 ^ 2 / 3) := by ring
+      rw [this, h3sq]; ring
+    nlinarith
+
+
+theorem odijkForce_shape (d Lp Lc St kT : ℝ) :
+    odijkForce d Lp Lc St kT =
+      calcCubicRoot (-2 * ((d / Lc - 1) * St)) (((d / Lc - 1) * St) ^ 2) (-(1 / 4 * (kT / Lp) * St ^ 2)) 2 := by
+  simp only [odijkForce]
+  rw [odijkForceCoeffs_real]
+  simp only []
+  congr 1 <;> ring
+
+theorem odijk_selected_root_aux (d Lp Lc St kT : ℝ) (hLp : 0 < Lp) (hSt : 0 < St) (hkT : 0 < kT) :
+    0 < odijkForce d Lp Lc St kT ∧ (d / Lc - 1) * St ≤ odijkForce d Lp Lc St kT := by
+  rw [odijkForce_shape]
+  exact odijk_shape_root ((d / Lc - 1) * St) (1 / 4 * (kT / Lp) * St ^ 2) (by positivity)
+
+/-- Odijk's extension is strictly increasing in the force, hence injective on `F > 0` -/
+theorem odijkDistance_injective (F1 F2 Lp Lc St kT : ℝ) (h1 : 0 < F1) (h2 : 0 < F2) (hLp : 0 < Lp)
+    (hLc : 0 < Lc) (hSt : 0 < St) (hkT : 0 < kT)
+    (h : odijkDistance F1 Lp Lc St kT = odijkDistance F2 Lp Lc St kT) : F1 = F2 := by
+  rw [odijkDistance_real, odijkDistance_real] at h
+  have h' : -(1 / 2) * √(kT / (F1 * Lp)) + F1 / St = -(1 / 2) * √(kT / (F2 * Lp)) + F2 / St := by
+    have := mul_left_cancel₀ hLc.ne' h
+    linarith
+  have key : ∀ a b : ℝ, 0 < a → a < b →
+      -(1 / 2) * √(kT / (a * Lp)) + a / St < -(1 / 2) * √(kT / (b * Lp)) + b / St := by
+    intro a b ha hab
+    have hb : 0 < b := lt_trans ha hab
+    have hlt : kT / (b * Lp) < kT / (a * Lp) := by
+      apply div_lt_div_of_pos_left hkT (by positivity)
+      exact mul_lt_mul_of_pos_right hab hLp
+    have hs : √(kT / (b * Lp)) < √(kT / (a * Lp)) := Real.sqrt_lt_sqrt (by positivity) hlt
+    have hd : a / St < b / St := div_lt_div_of_pos_right hab hSt
+    linarith
+  rcases lt_trichotomy F1 F2 with hlt | heq | hgt
+  · exact absurd h' (ne_of_lt (key F1 F2 h1 hlt))
+  · exact heq
+  · exact absurd h'.symm (ne_of_lt (key F2 F1 h2 hgt))
+
+
+theorem cubic_mono_aux (e t r : ℝ) (he : 0 < e) (hte : e ≤ t) (hlt : t < r)
+    (h : (r - t) * (r ^ 2 + r * t + t ^ 2 - 3 * e ^ 2) = 0) : False := by
+  have a1 : 0 ≤ t - e := by linarith
+  have a2 : 0 < r - e := by linarith
+  have hpos : 0 < r ^ 2 + r * t + t ^ 2 - 3 * e ^ 2 := by
+    nlinarith [mul_nonneg a1 a1, mul_pos a2 a2, mul_nonneg a1 a2.le, mul_pos he a2, mul_nonneg he.le a1]
+  rcases mul_eq_zero.mp h with h' | h'
+  · linarith
+  · linarith
+
+/-- with three real roots (`det < 0`) the code's root 1 is the smallest and root 2 the largest real root -/
+theorem trig_root_order_aux (p q : ℝ) (hdet : q ^ 2 / 4 + p ^ 3 / 27 < 0) (r : ℝ)
+    (hr : r ^ 3 + p * r + q = 0) :
+    trigRoot p q 1 ≤ r ∧ r ≤ trigRoot p q 2 := by
+  obtain ⟨hspos, hs2, hF1, hF2⟩ := trig_setup p q hdet
+  obtain ⟨_, h1root, h2root⟩ := trig_roots p q hdet
+  have hT1 : trigRoot p q 1 = -2 / √3 * √(-p) * Real.sin (1 / 3 * Real.arcsin (asinArg p q) + Real.pi / 3) :=
+    trigRoot_real p q 1
+  have hT2 : trigRoot p q 2 = 2 / √3 * √(-p) * Real.cos (1 / 3 * Real.arcsin (asinArg p q) + Real.pi / 6) :=
+    trigRoot_real p q 2
+  rw [asinArg_real p q hdet] at hT1 hT2
+  set s := √(-p) with hs
+  set A := Real.arcsin (3 * √3 * q / (2 * s ^ 3)) with hA
+  have hA1 : -(Real.pi / 2) ≤ A := Real.neg_pi_div_two_le_arcsin _
+  have hA2 : A ≤ Real.pi / 2 := Real.arcsin_le_pi_div_two _
+  have h3sq : (√3 : ℝ) ^ 2 = 3 := Real.sq_sqrt (by norm_num)
+  have h3pos : (0 : ℝ) < √3 := Real.sqrt_pos.mpr (by norm_num)
+  have hcos : 1 / 2 ≤ Real.cos (1 / 3 * A + Real.pi / 6) := by
+    rw [← Real.cos_pi_div_three]
+    apply Real.cos_le_cos_of_nonneg_of_le_pi <;> linarith [Real.pi_pos]
+  have hsin : 1 / 2 ≤ Real.sin (1 / 3 * A + Real.pi / 3) := by
+    rw [← Real.sin_pi_div_six]
+    apply Real.sin_le_sin_of_le_of_le_pi_div_two <;> linarith [Real.pi_pos]
+  -- e = s/√3, with 3 e² = s² = -p
+  set e := s * √3 / 3 with he
+  have hepos : 0 < e := by positivity
+  have he2 : 3 * e ^ 2 = -p := by
+    rw [he, ← hs2]
+    have : (s * √3 / 3) ^ 2 = s ^ 2 * (√3 ^ 2) / 9 := by ring
+    rw [this, h3sq]; ring
+  set t1 := trigRoot p q 1 with ht1
+  set t2 := trigRoot p q 2 with ht2
+  have ht1le : t1 ≤ -e := by
+    rw [hT1, neg_div, two_div_sqrt3, he]
+    have : 0 ≤ s * √3 / 3 * 2 * (Real.sin (1 / 3 * A + Real.pi / 3) - 1 / 2) := by
+      apply mul_nonneg (by positivity); linarith
+    nlinarith
+  have ht2ge : e ≤ t2 := by
+    rw [hT2, two_div_sqrt3, he]
+    have : 0 ≤ s * √3 / 3 * 2 * (Real.cos (1 / 3 * A + Real.pi / 6) - 1 / 2) := by
+      apply mul_nonneg (by positivity); linarith
+    nlinarith
+  have h1 : t1 ^ 3 + p * t1 + q = 0 := by rw [hT1]; exact h1root
+  have h2 : t2 ^ 3 + p * t2 + q = 0 := by rw [hT2]; exact h2root
+  have hp : p = -(3 * e ^ 2) := by linarith
+  constructor
+  · by_contra hc
+    have hlt : r < t1 := not_le.mp hc
+    have hd : (-r - -t1) * ((-r) ^ 2 + -r * -t1 + (-t1) ^ 2 - 3 * e ^ 2) = 0 := by
+      rw [hp] at h1 hr; linear_combination h1 - hr
+    exact cubic_mono_aux e (-t1) (-r) hepos (by linarith) (by linarith) hd
+  · by_contra hc
+    have hlt : t2 < r := not_le.mp hc
+    have hd : (r - t2) * (r ^ 2 + r * t2 + t2 ^ 2 - 3 * e ^ 2) = 0 := by
+      rw [hp] at h2 hr; linear_combination hr - h2
+    exact cubic_mono_aux e t2 r hepos ht2ge hlt hd
+
+
 end Verif.C12
